@@ -168,7 +168,12 @@ impl Monitor for C09 {
                                 })
                         })
                 };
-                let mut waiting = pre.waiting_ka;
+                // a keepalive sent by this very housekeeping pass arms the probe before the trailing drain
+                let mut waiting = if matches!(ctx.kind, crate::lsim::StepKind::Uplink) {
+                    pre.waiting_ka
+                } else {
+                    find_view(ctx.mid, pre.conn_id).map(|m| m.waiting_ka).unwrap_or(pre.waiting_ka)
+                };
                 let mut answered = false;
                 for (c, b) in &processed {
                     if *c != pre.conn_id || ptype(b) != Some(T_KEEPALIVE) {
